@@ -165,6 +165,19 @@ Clauses == [FirstEvalIsStart |-> FirstEvalIsStart, EvalInBounds |-> EvalInBounds
 Violated == {c \in DOMAIN Clauses : ~Clauses[c]}
 
 (***************************************************************************)
+(* Results belong to the caller.  A caller who keeps the parameter vectors *)
+(* returned by earlier calls (the (popt, ll) pairs of a multi-start loop)  *)
+(* finds in each of them, after any number of later calls, the values it   *)
+(* held when it was returned - otherwise the fixed parameters and the      *)
+(* likelihood reported with it would no longer be those of the point.      *)
+(*   atReturn[q], now[q]: values of the q-th kept result at its return and *)
+(*   after the latest call;  shares[q]: the latest result overlaps it in   *)
+(*   memory (then one write changes both).                                 *)
+(***************************************************************************)
+EarlierResultsKept(atReturn, now) == Len(now) = Len(atReturn) /\ \A q \in 1..Len(now) : now[q] = atReturn[q]
+NoSharedMemory(shares) == \A q \in 1..Len(shares) : shares[q] = FALSE
+
+(***************************************************************************)
 (* Misc.perturb_params: the perturbed vector stays within the bounds       *)
 (* (bounds exact: nothing is transformed).                                 *)
 (***************************************************************************)
